@@ -53,6 +53,12 @@ class CallableModel:
         from .ops import PyRaise
         from .sym import SObj
 
+        if obj.fields.get("coro"):
+            # an async function: calling it only creates the coroutine
+            c = SObj("pyvc:CoroOf", {"fn": obj, "args": tuple(args)}, tag=f"coro({obj.tag})")
+            if obj.fields.get("record"):
+                interp.traces.setdefault(obj.fields["record"], []).append(c)
+            return c
         rec = obj.fields.get("record")
         if rec:
             entry = tuple(args) if len(args) != 1 else args[0]
@@ -79,12 +85,20 @@ class CallableModel:
         return None
 
 
+@register(name="pyvc:CoroOf")
+class CoroOfModel:
+    def m___await__(self, interp, obj, args, kwargs, fr):
+        interp.yield_point(fr, f"await {obj.tag}")
+        return None
+
+
 def load_all():
     from . import models_h2  # noqa: F401
     from . import models_ws  # noqa: F401
     from . import models_h11  # noqa: F401
     from . import models_cli  # noqa: F401
     from . import models_rt  # noqa: F401
+    from . import models_io  # noqa: F401
 
 
 load_all()
